@@ -5,7 +5,7 @@
 # and undoes the change.  HARMLESS.diff (behaviour-preserving edits) must leave every check green.
 cd /repo || exit 2
 for p in "$@"; do
-  if [ "$p" = HARMLESS ]; then props="C09 C11 C13 C14 C15 C17 C03"; else props=$p; fi
+  if [ "$p" = HARMLESS ]; then props="C09 C11 C13 C14 C15 C16 C17 C03"; else props=$p; fi
   git apply /verif/selftest/$p.diff || { echo "patch $p does not apply"; continue; }
   for q in $props; do
     echo "=== selftest $p :: check $q"
